@@ -40,7 +40,9 @@ class Pattern(Leaf):
         _ = lean
         pat = self.pattern or ""
         # multiline patterns are OK
-        pat = trim(pat)
+        # NOTE: the blanks of a one-line pattern are part of the pattern
+        if '\n' in pat:
+            pat = trim(pat)
         if '/' in pat and '"' in pat and "'" not in pat:
             # the string forms of a pattern have no escape for their own quote
             regex = f"?'{pat}'"
